@@ -8,6 +8,7 @@ CONSTANTS LgMaxK = 2
  PromoteCount <- PC2
  FixedIsEmpty = TRUE
  FixedReset = TRUE
-INVARIANT ResultOK EmptyOK CountersOK UInvOK
+ FixedDownsampleKxq = TRUE
+INVARIANT ResultOK EmptyOK CountersOK HipOK UInvOK
 PROPERTY Refines
 CHECK_DEADLOCK FALSE
